@@ -18,6 +18,10 @@ import fnmatch
 
 VERIF = os.path.dirname(os.path.dirname(os.path.abspath(__file__)))
 EVIDENCE_DIR = os.path.join(VERIF, 'evidence')
+if os.environ.get('VERIF_REPO', '/repo') != '/repo':
+    # a run against a scratch copy (mutation self-test) must not overwrite
+    # the evidence of the real tree
+    EVIDENCE_DIR = os.path.join('/var/tmp', 'verif_scratch_evidence')
 REPLAY_DIR = os.path.join(VERIF, 'replay')
 FINDINGS = os.path.join(VERIF, 'known_findings.json')
 
